@@ -43,6 +43,9 @@ POOL = [
     ("%{**%{[1]: 2}, **%{[1]: 2}}", "none", None, ""), ("%{[1]: 2, [2]: 2}", "none", None, ""), ("%{[2]: 2, [1]: 2}", "none", None, ""), ("%{**%{[1]: 2}, **%{[2]: 2}}", "none", None, ""),
     ("%{[1]: 2}", "none", None, ""), ("%{**%{{a: 1}: 2, [1]: 2}, **%{{a: 1}: 2}}", "none", None, ""), ("%{{a: 1}: 2, [1]: 2}", "none", None, ""),
     ("{**{a: 1}, **{a: 1}}", "none", None, ""), ("[%{**%{[1]: 2}, **%{[1]: 2}}]", "none", None, ""), ("[%{[1]: 2, [2]: 2}]", "none", None, ""),
+    # neighbouring ints beyond 2**53 (distinct as ints, the same number after conversion to a float)
+    ("9007199254740992", "int", 2**53, "Int"), ("9007199254740993", "int", 2**53 + 1, "Int"), ("9223372036854775806", "int", 2**63 - 2, "Int"),
+    ("(-9223372036854775806)", "int", -(2**63 - 2), "Int"), ("P.new(9007199254740993)", "int", 2**53 + 1, "P"), ("P.new(9007199254740994)", "int", 2**53 + 2, "P"),
 ]
 OPS = [("eq", "=="), ("ne", "!="), ("lt", "<"), ("le", "<="), ("gt", ">"), ("ge", ">="), ("cmp", "<=>")]
 
@@ -150,8 +153,7 @@ def run():
                       "booleans, functions, Either/error values); all ordered pairs x (==, !=), same-family pairs x (<,<=,>,>=,<=>,max,min), "
                       "same-family triples for transitivity (all) and between?/clip; non-trivial = pairs of distinct pool entries that "
                       "compare equal plus pairs in strict order")
-    ck.assumptions = ["NaN/Inf are not constructible in the language (0.0/0.0 raises) and are absent from the pool",
-                      "int-vs-float and int-vs-str comparisons raise TypeErr and are outside the ordered-family laws"]
+    ck.assumptions = ["int-vs-str and the other cross-family comparisons raise TypeErr and are outside the ordered-family laws"]
     return ck.finish()
 
 
